@@ -32,16 +32,17 @@ def show(spans):
     return ",".join("%d+%d" % (s, l) for (s, l) in spans) or "-"
 
 
-def gen_pairs(rng, maxoff):
+def gen_pairs(rng, maxoff, base=0):
     k = rng.randrange(0, 4)
-    return [(rng.randrange(maxoff), rng.randrange(1, 60)) for _ in range(k)]
+    return [(base + rng.randrange(maxoff), rng.randrange(1, 60)) for _ in range(k)]
 
 
-def gen_history(rng, n, maxoff):
+def gen_history(rng, n, maxoff, base=0):
+    """`base` shifts every offset (share offsets are arbitrary Python ints, e.g. beyond 2**64)."""
     ops = []
     for _ in range(n):
         r = rng.random()
-        a = rng.randrange(maxoff)
+        a = base + rng.randrange(maxoff)
         l = rng.choice([1, 1, 2, 3, 5, 8, 13, 40]) if rng.random() < 0.8 else rng.randrange(1, maxoff)
         if r < 0.30:
             ops.append(("a", a, l))
@@ -52,11 +53,11 @@ def gen_history(rng, n, maxoff):
         elif r < 0.78:
             ops.append(("l",))
         elif r < 0.88:
-            ops.append(("i", gen_pairs(rng, maxoff), rng.randrange(4)))
+            ops.append(("i", gen_pairs(rng, maxoff, base), rng.randrange(4)))
         elif r < 0.94:
-            ops.append(("u", gen_pairs(rng, maxoff), rng.randrange(4), rng.choice(["+", "+="])))
+            ops.append(("u", gen_pairs(rng, maxoff, base), rng.randrange(4), rng.choice(["+", "+="])))
         else:
-            ops.append(("m", gen_pairs(rng, maxoff), rng.randrange(4), rng.choice(["-", "-="])))
+            ops.append(("m", gen_pairs(rng, maxoff, base), rng.randrange(4), rng.choice(["-", "-="])))
     return ops
 
 
@@ -184,11 +185,11 @@ def show_opt(d):
     return "N" if d is None else hx(d)
 
 
-def gen_dhistory(rng, n, maxoff):
+def gen_dhistory(rng, n, maxoff, base=0):
     ops = []
     for _ in range(n):
         r = rng.random()
-        a = rng.randrange(maxoff)
+        a = base + rng.randrange(maxoff)
         l = rng.choice([1, 1, 2, 3, 5, 8, 13, 40]) if rng.random() < 0.8 else rng.randrange(1, maxoff)
         if r < 0.36:
             if rng.random() < 0.03:
@@ -217,6 +218,51 @@ def chunks_dict(chunks):
     return d, n
 
 
+def add_branches(chunks, start, n):
+    """Which of the code's cases (A-E, append, skip) an add of n bytes at `start` goes through (coverage only)."""
+    e = start + n
+    i = 0
+    labels = set()
+    while n > 0:
+        if i >= len(chunks):
+            labels.add("append"); break
+        ss, sl = chunks[i][0], len(chunks[i][1])
+        if start < ss:
+            labels.add("A"); k = ss - start; start = ss; n = max(0, n - k); continue
+        se = ss + sl
+        if ss <= start < se:
+            if ss == start:
+                if se <= e:
+                    labels.add("C2" if n > sl else "C1"); i += 1; start += sl; n -= sl; continue
+                labels.add("B"); break
+            if e < se:
+                labels.add("E"); break
+            labels.add("D2" if e > se else "D1"); k = se - start; i += 1; start += k; n -= k; continue
+        labels.add("skip"); i += 1
+    return labels
+
+
+def remove_branches(chunks, start, n):
+    labels = set()
+    e = start + n
+    for (ss, sd) in chunks:
+        se = ss + len(sd)
+        if ss >= e:
+            labels.add("break"); break
+        lo, hi = max(start, ss), min(e, se)
+        if lo >= hi:
+            labels.add("no-overlap")
+        elif hi - lo == len(sd):
+            labels.add("whole")
+        elif lo == ss:
+            labels.add("prefix")
+        elif hi == se:
+            labels.add("suffix")
+        else:
+            labels.add("middle")
+    return labels
+
+
 def run_dimpl(ctx, ops):
     """Execute on the real DataSpans; evaluate the property against a dict offset -> byte."""
     from allmydata.util.spans import DataSpans
@@ -235,11 +281,15 @@ def run_dimpl(ctx, ops):
         k = op[0]
         if k == "a":
             data = bytes.fromhex(op[2])
+            for lab in add_branches(ds.spans, op[1], len(data)) or {"empty-data"}:
+                ctx.count("dspans-add-branch:" + lab)
             ds.add(op[1], data)
             for i, b in enumerate(data):
                 ref[op[1] + i] = b
             outs.append(show_chunks(ds.spans))
         elif k == "r":
+            for lab in remove_branches(ds.spans, op[1], op[2]):
+                ctx.count("dspans-remove-branch:" + lab)
             ds.remove(op[1], op[2])
             for x in range(op[1], op[1] + op[2]):
                 ref.pop(x, None)
@@ -332,6 +382,15 @@ def untuple(ops):
     return res
 
 
+def pick_base(ctx):
+    r = ctx.rng.random()
+    if r < 0.85:
+        ctx.count("offset-base:0"); return 0
+    if r < 0.93:
+        ctx.count("offset-base:2^32"); return 2 ** 32 - 150
+    ctx.count("offset-base:2^64"); return 2 ** 64 - 150
+
+
 def guarded(ctx, fn, kind, ops):
     """An exception out of the real code (e.g. its own _check / assert_invariants firing on valid arguments) breaks the
     statement: a set / a partial map accepts every such operation."""
@@ -353,10 +412,10 @@ def run(ctx):
         dhists = [list(h) for h in DSPANS_CORPUS]
         lens = [5, 20, 60, 200] if ctx.tier != "thorough" else [5, 20, 60, 200, 600]
         offs = [20, 60, 300] if ctx.tier != "thorough" else [12, 20, 60, 300, 1000]
-        for i in range(ctx.budget(150, 3000)):
-            shists.append(gen_history(ctx.rng, ctx.rng.choice(lens), ctx.rng.choice(offs)))
-        for i in range(ctx.budget(150, 3000)):
-            dhists.append(gen_dhistory(ctx.rng, ctx.rng.choice(lens), ctx.rng.choice(offs)))
+        for i in range(ctx.budget(400, 3000)):
+            shists.append(gen_history(ctx.rng, ctx.rng.choice(lens), ctx.rng.choice(offs), pick_base(ctx)))
+        for i in range(ctx.budget(400, 3000)):
+            dhists.append(gen_dhistory(ctx.rng, ctx.rng.choice(lens), ctx.rng.choice(offs), pick_base(ctx)))
     simpl = [guarded(ctx, run_impl, "spans", h) for h in shists]
     dimpl = [guarded(ctx, run_dimpl, "dspans", h) for h in dhists]
     model = ctx.model([line_of(h) for h in shists] + [dline_of(h) for h in dhists])
